@@ -210,6 +210,105 @@ fn case_beautify(c: &J, peers: &Peers) -> J {
     }
 }
 
+/// C18: a failing (or not failing) instruction K in a context, run uncaught (U) and caught by an xor (C)
+fn xor_kind_text(kind: &str, a: &str) -> String {
+    match kind {
+        "service_error" => format!(r#"(call "{a}" ("e" "boom") [])"#),
+        "fail_literal" => r#"(fail 7 "custom")"#.to_string(),
+        "match_ne" => r#"(match arr "nope" (null))"#.to_string(),
+        "mismatch_eq" => r#"(mismatch arr arr (null))"#.to_string(),
+        "lens_field_missing" => format!(r#"(call "{a}" ("t" "k") [obj.$.zzz])"#),
+        "lens_index_oob" => format!(r#"(call "{a}" ("t" "k") [arr.$.[9]])"#),
+        "lens_on_scalar" => format!(r#"(call "{a}" ("t" "k") [str.$.a])"#),
+        "ap_lens_missing" => r#"(ap obj.$.zzz q)"#.to_string(),
+        "fold_non_array" => r#"(fold str it (seq (null) (next it)))"#.to_string(),
+        "non_string_triplet" => r#"(call arr ("t" "k") [])"#.to_string(),
+        "length_of_non_array" => format!(r#"(call "{a}" ("t" "k") [str.length])"#),
+        "not_init_after_new" => format!(r#"(new nn (call "{a}" ("t" "k") [nn]))"#),
+        "fail_last_error_clean" => r#"(fail %last_error%)"#.to_string(),
+        // not failing
+        "ok_call" => format!(r#"(call "{a}" ("t" "fine") [arr])"#),
+        "never" => "(never)".to_string(),
+        // the producer is a remote peer that never answers in this single-peer run: the consumer waits
+        "join_wait" => format!(r#"(par (call "remote_peer_that_never_answers" ("t" "r") [] w) (call "{a}" ("t" "k") [w]))"#),
+        "null" => "(null)".to_string(),
+        // uncatchable
+        "shadowing" => format!(r#"(call "{a}" ("t" "again") [] str)"#),
+        _ => "(null)".to_string(),
+    }
+}
+
+fn xor_context(ctx: &str, body: &str, a: &str) -> String {
+    match ctx {
+        "plain" => body.to_string(),
+        "seq_after" => format!(r#"(seq (call "{a}" ("t" "before") []) {body})"#),
+        "par_left" => format!(r#"(par {body} (null))"#),
+        "par_both" => format!(r#"(par {body} (fail 3 "other"))"#),
+        "fold_body" => format!(r#"(fold arr2 it2 (seq {body} (next it2)))"#),
+        "new_scope" => format!(r#"(new zz {body})"#),
+        "seq_then" => format!(r#"(seq {body} (call "{a}" ("out" "after") []))"#),
+        _ => body.to_string(),
+    }
+}
+
+fn run_to_quiet(script: &str, peers: &Peers) -> J {
+    let mut prev: Vec<u8> = vec![];
+    let mut results = CallResults::new();
+    let mut seen: Vec<J> = vec![];
+    let mut first_err = json!({"code": 0, "msg": ""});
+    let mut last_code = 0i64;
+    for _round in 0..10 {
+        let o = net::run_raw(peers, script, &prev, &[], "A", "A", "particle-1", &Limits::default(), &results);
+        if let Some(d) = o.died {
+            return json!({"died": d, "code": -1, "msg": "", "calls": seen, "first_err": first_err});
+        }
+        last_code = o.code;
+        if o.code != 0 && first_err["code"] == 0 {
+            first_err = json!({"code": o.code.clamp(-1, (1 << 31) - 1), "msg": net::truncate(&o.error_message_or(&o.msg), 400)});
+        }
+        let reqs = net::decode_requests(&o.reqs_bytes, peers).unwrap_or_default();
+        results = CallResults::new();
+        prev = o.data.clone();
+        if reqs.is_empty() {
+            break;
+        }
+        for (id, r) in reqs.iter() {
+            seen.push(json!({"srv": r.srv, "fn": r.func, "args": r.args.iter().map(|x| proj::tag(x, peers)).collect::<Vec<_>>()}));
+            let sr = crate::services::service(&r.srv, &r.func, &r.args);
+            results.insert(id.to_string(), CallServiceResult { ret_code: sr.ret_code, result: sr.body });
+        }
+    }
+    json!({"died": "", "code": last_code.clamp(-1, (1 << 31) - 1), "calls": seen, "first_err": first_err})
+}
+
+fn case_xor(c: &J, peers: &Peers) -> J {
+    let a = peers.id_of("A");
+    let k = xor_kind_text(c["kind"].as_str().unwrap_or(""), &a);
+    let ctx = c["ctx"].as_str().unwrap_or("plain");
+    // variables every kind may use
+    let prelude = format!(
+        r#"(seq (call "{a}" ("l2" "arr") [] arr) (seq (call "{a}" ("o" "obj") [] obj) (seq (call "{a}" ("id" "str") ["s"] str) (seq (call "{a}" ("l2" "arr2") [] arr2) BODY))))"#
+    );
+    let catch = format!(r#"(call "{a}" ("out" "caught") [:error:.$.error_code :error:.$.message %last_error%.$.error_code])"#);
+    let u = prelude.replace("BODY", &xor_context(ctx, &k, &a));
+    let cc = prelude.replace("BODY", &xor_context(ctx, &format!("(xor {k} {catch})"), &a));
+    let uo = run_to_quiet(&u, peers);
+    let co = run_to_quiet(&cc, peers);
+    let caught: Vec<J> = co["calls"].as_array().cloned().unwrap_or_default().into_iter().filter(|x| x["fn"] == "caught").collect();
+    let after_u = uo["calls"].as_array().map(|v| v.iter().any(|x| x["fn"] == "after")).unwrap_or(false);
+    let after_c = co["calls"].as_array().map(|v| v.iter().any(|x| x["fn"] == "after")).unwrap_or(false);
+    let (ccode, cmsg) = match caught.first() {
+        Some(x) => (x["args"][0].clone(), x["args"][1]["s"].as_str().unwrap_or("").to_string()),
+        None => (proj::special("?", ""), String::new()),
+    };
+    let umsg = uo["first_err"]["msg"].as_str().unwrap_or("").to_string();
+    json!({"u_died": uo["died"], "c_died": co["died"], "u_code": uo["first_err"]["code"], "u_final": uo["code"], "c_final": co["code"],
+           "c_first_err": co["first_err"]["code"],
+           "ncaught": caught.len(), "caught_code": ccode, "msg_equal": !caught.is_empty() && cmsg == umsg,
+           "u_msg_contains_caught_msg": !caught.is_empty() && umsg.contains(&cmsg) && !cmsg.is_empty(),
+           "after_u": after_u, "after_c": after_c})
+}
+
 /// execute a (parseable) generated script on a single peer, answering every request, and watch for death
 fn case_runscript(c: &J, peers: &Peers) -> J {
     let a: Instr = match serde_json::from_value(c["script"].clone()) {
@@ -408,6 +507,7 @@ pub fn cmd_fn(args: &[String]) -> i32 {
             "beautify" => case_beautify(&c, &peers),
             "text" => case_text(&c, &peers),
             "runscript" => case_runscript(&c, &peers),
+            "xor" => case_xor(&c, &peers),
             "bytes" => case_bytes(&c, &b, &peers),
             other => json!({"res": format!("unknown family {other}")}),
         };
